@@ -127,7 +127,7 @@ def concrete_ctx(spec, mvals, tvals, monitors):
     U = Universe(spec)
     ctx = Ctx(spec, U, False)
     ctx.ms = [z3.IntVal(v) for v in mvals]
-    ctx.ts = [z3.IntVal(v) for v in tvals] if tvals else None
+    ctx.ts = [z3.IntVal(v) for v in tvals] if tvals else ([z3.IntVal(r) for r in U.declared] if U.declared else None)
     ctx.N = z3.IntVal(sum(mvals[i] for i in U.kept))
     text = U.concrete_text(mvals, tvals)
     ctx.extra['text'] = text
@@ -222,7 +222,7 @@ def run_job(spec):
     def body(e):
         ctx = Ctx(spec, U, True)
         ctx.ms = list(U.ms)
-        ctx.ts = list(U.ts) if U.ts else None
+        ctx.ts = list(U.ts) if U.ts else ([z3.IntVal(r) for r in U.declared] if U.declared else None)
         ctx.N = U.total()
         prof = U.profile()
         first = npath[0] == 0
